@@ -156,7 +156,7 @@ def check(pid, tier, seed, workers=None, out=sys.stdout):
         path = write_replay(pid, v)
         print(f"VIOLATION property={pid} replay={path}", file=out)
         print(f"  [{v['key']}] {v['msg']}", file=out)
-        rc = max(rc, 1) if rc != 3 else 3
+        rc = 1   # a reported violation decides the exit code, even if another task errored
     # vacuity self-test
     meta = mod.META
     min_out = meta.get("min_outcomes", {}).get(tier, meta.get("min_outcomes", {}).get("quick", 2))
